@@ -71,9 +71,9 @@ TEXT = {
   "technique": "Coq proof (invariant by induction over reach, replay composition, unreachability of the failing-commit branch) + differential correspondence + replay monitor",
  },
  "C12": {
-  "level": "Theorems: each operation leaves the chain unchanged, appends one block, or (sync round) either adopts a fully verified chain in a full re-sync or keeps everything below the tip untouched (prefix preservation); every reachable chain is hash-linked. In-place mutation of chained blocks (the pinned tree's aliasing defect, fixed) is outside immutable model values and is caught by the correspondence on block hashes and by re-observing every block after every operation.",
+  "level": "Theorems: each operation leaves the chain unchanged, appends one block, or (sync round) either adopts a fully verified chain in a full re-sync or keeps everything below the tip untouched (prefix preservation); every reachable chain is hash-linked. Go slice aliasing has its own heap model (backing arrays, slice headers, in-place removal, append with growth): with copy-on-handover every chained block's removal list reads the same after any further operations and the heap node refines the functional node on every operation sequence; without it (the pinned tree) explicit runs change a chained block.",
   "ref": "DESIGN.md section 4, C12",
-  "note": "Go slice aliasing is not modelled (caught by correspondence/monitor, not by a theorem); trusted: Coq kernel, extraction, harness",
+  "note": "the heap model covers the pending-removal slice (the one place the code edits in place); other slices are immutable after construction; trusted: Coq kernel, extraction, harness",
   "technique": "Coq proof (case analysis of step, invariant chain_linked over reach) + differential correspondence and hash re-observation monitor",
  },
  "C02": {
@@ -95,7 +95,7 @@ TEXT = {
   "technique": "Coq proof (finite LTS of the fetch protocol by exhaustive case analysis lifted to rounds by induction; inversion of update) + differential correspondence under a fault matrix + goroutine/time monitors",
  },
  "C16": {
-  "level": "Generic theorems, proved once for any table: in an abstract reader/writer-mutex semantics with any number of threads, a lock held exclusively excludes every other holder; two accesses that share a lock, one of them exclusively, are never simultaneously enabled; if every racy pair of a table is in an excluded list then any two simultaneously enabled conflicting accesses are in that list; an acyclic lock-order graph yields a rank, and programs that acquire locks in increasing rank never deadlock (n threads). Two table theorems are re-checked on every run against the access table and lock-order edges regenerated from /repo's source: every racy pair is a listed known finding (only Engine.started remains), and the lock order is acyclic. The dynamic part runs the node's activities concurrently under the race detector and checks the quiescent state. Operation-level interleavings are not covered by a theorem: partial.",
+  "level": "Generic theorems, proved once for any table: in an abstract reader/writer-mutex semantics with any number of threads, a lock held exclusively excludes every other holder; two accesses that share a lock, one of them exclusively, are never simultaneously enabled; if every racy pair of a table is in an excluded list then any two simultaneously enabled conflicting accesses are in that list; an acyclic lock-order graph yields a rank, and programs that acquire locks in increasing rank never deadlock (n threads). Two table theorems are re-checked on every run against the access table and lock-order edges regenerated from /repo's source: every racy pair is a listed known finding (only Engine.started remains), and the lock order is acyclic. The dynamic part runs the node's activities concurrently under the race detector and checks the quiescent state. Single-lock serializability is proved generically and instantiated on the pool: every interleaving of submissions and ticks equals a sequential order, and no admitted transaction is lost or duplicated. Interleavings between components are not covered by a theorem: partial.",
   "ref": "DESIGN.md section 4, C16",
   "note": "partial: lock discipline + deadlock freedom over an extracted table (sound relative to the translator's syntactic rules); no theorem about stale reads across lock releases; Go memory model not formalised",
   "technique": "Coq proof (Eraser-style lock-discipline and lock-order theorems over an abstract mutex semantics) instantiated on a table regenerated from source by a go/ast translator + race-detector stress runs",
